@@ -40,6 +40,18 @@ NewTags(f, s, ev, s2, old) ==
     \cup (IF ev.a = "ConfigureBad" /\ s.lr # f.lr THEN {"out-of-new-range-rejected"} ELSE {})
     \cup (IF ev.a = "ConfigureBad" /\ s.lr = f.lr THEN {"out-of-range-rejected"} ELSE {})
     \cup (IF ev.a = "Wipe" /\ ({"failed-configure", "out-of-new-range-rejected", "out-of-range-rejected"} \cap old) # {} THEN {"wipe-after-failed-configure"} ELSE {})
+    \* a falsy but explicitly given value (empty string / empty array / false) and a later --wipe
+    \cup (IF ev.a \in {"Setup", "Configure", "Reconfigure"} /\ \E k \in DOMAIN ev.D : ev.D[k] = "" THEN {"empty-value-given"} ELSE {})
+    \cup (IF ev.a \in {"Configure", "Reconfigure"} /\ \E k \in DOMAIN ev.D : ev.D[k] = "" /\ s.cmd[k] \notin {None, ""} THEN {"empty-value-replaces-recorded"} ELSE {})
+    \cup (IF ev.a \in {"Setup", "Configure", "Reconfigure"} /\ "subflag" \in DOMAIN ev.D /\ ev.D["subflag"] = "false" THEN {"false-given"} ELSE {})
+    \cup (IF ev.a = "Wipe" /\ ({"empty-value-given", "false-given"} \cap old) # {} THEN {"wipe-after-falsy-value"} ELSE {})
+    \* an override that equals the inherited value is dropped alone; later the parent / global value changes
+    \cup (IF ev.a = "ConfigureU" /\ ev.k = "subdl" /\ s.subdl = s.dl THEN {"drop-equal-subdl"} ELSE {})
+    \cup (IF ev.a = "ConfigureU" /\ ev.k = "subpopt" /\ s.sp = s.v THEN {"drop-equal-subpopt"} ELSE {})
+    \cup (IF ev.a \in {"Configure", "Reconfigure"} /\ "drop-equal-subdl" \in old /\ "dl" \in DOMAIN ev.D /\ ev.D["dl"] # s.dl /\ s.subdl = None
+          THEN {"global-change-after-equal-drop"} ELSE {})
+    \cup (IF ev.a \in {"Configure", "Reconfigure"} /\ "drop-equal-subpopt" \in old /\ "popt" \in DOMAIN ev.D /\ ev.D["popt"] # s.v /\ s.sp = None
+          THEN {"parent-change-after-equal-drop"} ELSE {})
     \cup (IF ev.a = "Reconfigure" /\ (s.ch # f.ch \/ (s.x # None) # f.x) THEN {"reconfigure-after-edit"} ELSE {})
     \cup (IF ev.a = "Configure" /\ (s.ch # f.ch \/ (s.x # None) # f.x) THEN {"configure-after-edit"} ELSE {})
     \cup (IF ev.a \in {"Configure", "Reconfigure"} /\ "dl" \in DOMAIN ev.D /\ s.subdl # None THEN {"global-change-under-override"} ELSE {})
@@ -74,6 +86,7 @@ LevelIsLastGivenElseDefault ==
 DlIsLastGivenElseDefault == st.exists => st.dl = (IF Given("dl") = None THEN DlDefault ELSE Given("dl"))
 PoptIsLastGivenElseCreationDefault ==
     (st.exists /\ ~HasEdit(hist, {"choices"})) => st.v = (IF Given("popt") = None THEN CreationDefault(hist) ELSE Given("popt"))
+ArrIsLastGivenElseDefault == st.exists => st.ar = (IF Given("arr") = None THEN ArrDefault ELSE Given("arr"))
 XoptIsLastGivenElseDefault ==
     (st.exists /\ st.x # None /\ ~HasEdit(hist, {"removex"})) => st.x = (IF Given("xopt") = None THEN XDefault ELSE Given("xopt"))
 \* dropping an override returns the subproject to the inherited value; a yielding option takes the parent's value
@@ -111,7 +124,8 @@ OnlyAskedValuesChange ==
           /\ (st'.sp # st.sp => ("subpopt" \in DOMAIN ev.D \/ (ev.a = "ConfigureU" /\ ev.k = "subpopt")))
           /\ (st'.sf # st.sf => ("subflag" \in DOMAIN ev.D \/ (ev.a = "ConfigureU" /\ ev.k = "subflag")))
           /\ (st'.v # st.v => ("popt" \in DOMAIN ev.D \/ st'.ch # st.ch))
-          /\ (st'.lv # st.lv => ("level" \in DOMAIN ev.D \/ st'.lr # st.lr))]_vars
+          /\ (st'.lv # st.lv => ("level" \in DOMAIN ev.D \/ st'.lr # st.lr))
+          /\ (st'.ar # st.ar => "arr" \in DOMAIN ev.D)]_vars
 
 \* ---- export of the complete histories (Mode = "replay") ----------------------------------------------
 EvJson(ev) == [a |-> ev.a, D |-> [k \in DOMAIN ev.D |-> ev.D[k]], k |-> ev.k, ok |-> ev.ok,
